@@ -222,7 +222,7 @@ CHECKS = {
     },
     "C17": {
         "level": "exploration",
-        "rule": "rapid-generated cases: store pre-fill (fresh / partial / full; filter headers lagging) x 1-3 peers (honest, not serving blocks, not serving filters, silent, slow with a generated response delay, some ahead of the client) x 0-5 in-flight callers started at generated instants (GetBlock, GetCFilter, Rescan, GetUtxo, SendTransaction, block subscription reader) x the virtual instant at which Stop is called. Oracle: Stop returns within 120 virtual seconds, every caller the harness started returns within the same bound, the data directory reopens and passes the C01 walk and the C03 structural checks. Non-trivial = at least one caller was blocked inside the client when Stop began; distinct = distinct case JSON Since the third session: the peers may reorganise to a competing heavier branch (fork 1-6 blocks below the base) before Stop, in the instant of Stop or while Stop is under way; Stop can be started by the client goroutine that reaches a named point inside a filter-header write / rollback / header write (held there meanwhile), or when the headers of the competing branch go on the wire; and the rollback can be made to take virtual time (1-20 ms per removed block, only with the client idle at the tip) with Stop called so that its later stages fall between two removed blocks.",
+        "rule": "rapid-generated cases: store pre-fill (fresh / partial / full; filter headers lagging) x 1-3 peers (honest, not serving blocks, not serving filters, silent, slow with a generated response delay, some ahead of the client) x 0-5 in-flight callers started at generated instants (GetBlock, GetCFilter, Rescan, GetUtxo, SendTransaction, block subscription reader) x the virtual instant at which Stop is called. Oracle: Stop returns within 120 virtual seconds, every caller the harness started returns within the same bound, the data directory reopens and passes the C01 walk and the C03 structural checks. Non-trivial = at least one caller was blocked inside the client when Stop began; distinct = distinct case JSON Since the third session: the peers may reorganise to a competing heavier branch (fork 1-6 blocks below the base) before Stop, in the instant of Stop or while Stop is under way; Stop can be started by the client goroutine that reaches a named point inside a filter-header write / rollback / header write (held there meanwhile), or when the headers of the competing branch go on the wire; and the rollback can be made to take virtual time (1-20 ms per removed block, only with the client idle at the tip) with Stop called so that its later stages fall between two removed blocks. In four fifths of the cases a second client is afterwards started on the same directory (plain, or with AssertFilterHeader true / wrong) with one well-behaved peer serving the heaviest chain: it must reach that tip with level filter headers within ten virtual minutes and stop.",
         "assumptions": NETSIM_ASSUME + [
             "at most one GetCFilter caller (callers serialise on a sync.Mutex held across the network query, which would freeze the bubble's clock)",
             "a goroutine left blocked inside the client after Stop that is not a harness caller is recorded as an observation, not as a violation of this property",
